@@ -128,6 +128,20 @@ class MolecularContainer:
                 # ... and store the average value
                 avr_group = avr_group / num_found
                 avr_conformation.groups.append(avr_group)
+        # coupling marks of the average: union over all conformations,
+        # expressed in terms of the averaged groups (clone() only aliases the
+        # list of the first conformation in which the group occurs)
+        for avr_group in avr_conformation.groups:
+            partners: list = []
+            for name in self.conformation_names:
+                found = self.conformations[name].find_group(avr_group)
+                if not found:
+                    continue
+                for other in found.non_covalently_coupled_groups:
+                    avr_other = avr_conformation.find_group(other)
+                    if avr_other and avr_other not in partners:
+                        partners.append(avr_other)
+            avr_group.non_covalently_coupled_groups = partners
         # store information on coupling in the average container
         if len(list(filter(lambda c: c.non_covalently_coupled_groups,
                            self.conformations.values()))):
